@@ -65,6 +65,15 @@ def lookups(ck, agg):
             nn.model.opaque[key] = reply_update(ltype, reply)
             st, node = nn.fresh(fields={net.FN("_id"): 5, net.FN("_addr"): 0o15})
             outs = nn.run(f, node, [Const(9)], st, limits=Limits(max_paths=20000, loop_unroll=2, depth=14, concrete_loop=10))
+            # ... also about itself: "lookups return the master's *current* mapping" - a node's own ID / address is looked up like any other
+            # (check_connection() relies on it to notice that the master has dropped or re-assigned the lease)
+            own_arg = 5 if fname == "lookup_address" else 0o15
+            st_o, node_o = nn.fresh(fields={net.FN("_id"): 5, net.FN("_addr"): 0o15})
+            for out in nn.run(f, node_o, [Const(own_arg)], st_o, limits=Limits(max_paths=20000, loop_unroll=2, depth=14, concrete_loop=10)):
+                if out.kind == "return":
+                    wr_o = [e for e in out.trace if e.kind == "summary" and e.data[0] == "_write"]
+                    agg.add("R17.1", f, "a connected node asks the master about its own ID / address too (never answers from its own belief)", len(wr_o) == 1,
+                            "%s.%s(%s) on the node that has ID 5 / address 0o15: returns %r after %d transmissions" % (clsname, fname, oct(own_arg) if fname != "lookup_address" else own_arg, out.value, len(wr_o)))
             seen = set()
             for out in outs:
                 if out.kind != "return":
@@ -222,6 +231,17 @@ def misc(ck, agg):
                     "%s: renew_address(timeout=1) pauses for %r seconds between two request rounds - the call returns long after the timeout" % (clsname, c_ if c_ is not None else e.data), e.node)
         if clsname == "RF24MeshNoMaster":
             agg.add("R17.3", f, "renew_address() backs off between request rounds (anchor)", bool(pauses), "%s: no pause found" % clsname)
+        # the deadline is derived from the timeout the caller gave - in every class (an override that delegates must pass it on)
+        from ..interp_expr import deps_of
+        st, node = nn.fresh(fields={net.FN("_id"): 5, net.FN("_addr"): DEFAULT})
+        outs_t = nn.run(f, node, [Sym("given_timeout", "float")], st, limits=Limits(max_paths=60000, loop_unroll=1, depth=14, concrete_loop=6))
+        dl = []
+        for o in outs_t:
+            for e in o.trace:
+                if e.kind == "cond" and e.func is not None and e.func.name == f.name and isinstance(e.data[1], tuple) and isinstance(e.node, ast.Compare) and any("clock" in str(sorted(map(str, deps_of(norm(x))))) or (isinstance(norm(x), Sym) and norm(x).attrs.get("role") == "clock") for x in e.data[1]):
+                    dl.append(any("given_timeout" in str(sorted(map(str, deps_of(norm(x))))) for x in e.data[1]))
+        agg.add("R17.3", f, "the deadline of renew_address() is derived from the timeout the caller gave", bool(dl) and all(dl),
+                "%s.renew_address(timeout): %d of %d deadline tests do not depend on the given timeout - the call ends after the default 7.5 s whatever was asked for" % (clsname, len([x for x in dl if not x]), len(dl)))
         # send(): lookup failures end through the clock test with False
         f = P.method(cls, "send")
         n += 1
